@@ -15,9 +15,9 @@ out = ["### 8.4 Seeded changes (written by independent sub-agents; `seeded/<id>/
        "Each sub-agent received only the text of one property and its own scratch worktree of /repo (nothing from /verif), and",
        "returned a change that still passes the 55 repository tests plus a demonstration script.  Every change was confirmed",
        "with `tools/seedcheck.sh` (demo PASS on the unmodified tree, tests pass with the change, demo FAIL with the change) and",
-       "then the property's quick check was run against the changed worktree (`VERIF_REPO=<worktree>`).  Seven rounds (a: free",
+       "then the property's quick check was run against the changed worktree (`VERIF_REPO=<worktree>`).  Eight rounds (a: free",
        "choice, b: a named focus area per property, c: \"not the obvious place\", d: disguised as a performance / clean-up",
-       "commit, e: needs an exact coincidence a random generator would not produce, f: in a rarely executed branch or environment-dependent path, g: an interaction of two options, sections, calls or argument types), %d changes: %d were reported by the check as it" % (len(rows), len(rows) - len(missed)),
+       "commit, e: needs an exact coincidence a random generator would not produce, f: in a rarely executed branch or environment-dependent path, g: an interaction of two options, sections, calls or argument types, h: a well-meant normalisation or leniency), %d changes: %d were reported by the check as it" % (len(rows), len(rows) - len(missed)),
        "stood at the time, %d were missed and led to the strengthening noted per seed in `meta.json` (`history`); after that all" % len(missed),
        "%d are reported by the quick tier at seed 0 (`tools/reseed.sh` re-applies every patch to a fresh worktree and re-checks)." % len(rows),
        "",
@@ -48,6 +48,9 @@ out += ["",
         "  display mode, `-x` on a look-up, `-e` with directories, a group named twice; an API is more than its usual caller -",
         "  a stream whose cursor is not at 0, a `Config` reused after a failed call, lines as a generator, paths as",
         "  `pathlib.Path`/`bytes`, views released by a plug-in, the interpreter run with `-O`;",
+        "* *values that invite tidying*: unset / all-nines time stamps, text that Unicode normalisation would rewrite, blanks at",
+        "  the edges and doubled inside strings, payloads that look like padding, empty descriptions, names with comment",
+        "  markers, rows that repeat, duplicate list items, exceptions without a message - all of it is data to be shown as stored;",
         "* an exception escaping the decoder under test is a violation to report, never a crashed shard;",
         "* do not accept two readings where the code base has one (declared trace-buffer size inside an entry).",
         "",
